@@ -167,6 +167,13 @@ class C13(verif.Spec):
     lean_modules = ["ZvbiModel.Props.C13", "ZvbiModel.Props.C13Str"]
     harness = "net_harness"
     harness_link_lib = True
+    # the private arrays vbi->cni_cycle[] / cni_announced[] exist only with fixes/C13-cni-cycle-per-carrier.diff applied;
+    # the harness prints them in its state dump when they do (the model does the same from the generated flag)
+    try:
+        harness_extra = (["-DNET_PER_CARRIER"] if "cni_cycle" in open(os.path.join(verif.REPO, "src", "vbi.h"),
+                                                                       encoding="latin-1").read() else [])
+    except OSError:
+        harness_extra = []
     partial_note = ("full for the debounce state machines of all carriers and for any station table; the XDS packet "
                     "assembly (C09), Teletext page assembly (C02) and the cache (C10) are abstracted: an XDS line is a "
                     "complete valid packet, `cached` is the set of pages stored since the last vbi_chsw_reset; "
@@ -177,6 +184,8 @@ class C13(verif.Spec):
                    "XDS class 0/1 (programme aspect) packets are not fed, so prog_info[0].aspect changes only through WSS and reset"]
     trusted_base = ["Net/XdsStr.lean extents nameSize / callSize / xdsMaxLen and the field list of vbi_program_id: compared with the compiled structs by the `layout` op on every run",
                     "translate/gen_net.py (CNI table rows, event bits, XDS guard shape; rows and look-ups cross-checked against the compiled code)",
+                    "translate/gen_netflags.py (shape of the CNI debounce: shared / per-carrier cycle, vbi_chsw_reset call, vbi_event_enable inner test; "
+                    "a mixed shape is a translator error, a wrong flag breaks the correspondence on the corpus replays)",
                     "harness/net_harness.c + lean/Driver/Net.lean (correspondence over vbi_decode incl. internal state dumps)",
                     "Codec model of C12 for the VPS / 8/30 field decoders (decodeVpsCni, decodeVpsPdc, decode8301LocalTime, decode8302Pdc)"]
     open_statements = []
@@ -206,6 +215,9 @@ class C13(verif.Spec):
             plans.append(self.plan_pid(rng))
         for i in range(240 if quick else 3000):
             plans.append(self.plan_onefield(rng))
+        # handler registrations / mask changes / removals in the middle of reception histories, values stable
+        for i in range(300 if quick else 4000):
+            plans.append(self.plan_handlers(rng))
         for i in range(500 if quick else 6000):
             plans.append(self.plan_malformed(rng))
         pk = self.enc.run()
@@ -406,6 +418,74 @@ class C13(verif.Spec):
                     g = list(w); g[rng.randrange(2)] ^= 1 << rng.randrange(8)
                     plan.append(("frame", T(), ["w:" + hx(g)]))
             if rng.random() < 0.3: plan.append("state")
+        return plan
+
+    def plan_handlers(self, rng):
+        """One station (one carrier, known to the table) and one valid WSS word keep arriving unchanged while the
+        handler is registered again with other masks: bits of OTHER event classes added / removed, the second bit of
+        a class added while the first is enabled (ASPECT <-> PROG_INFO, NETWORK <-> NETWORK_ID), everything removed
+        and registered again.  Oracle: what a handler has been told is not told again while the value keeps arriving,
+        unless its own class was enabled from scratch (both bits of the class off before) or the decoder was reset."""
+        t = [rng.randrange(1, 10 ** 6)]
+        def T():
+            t[0] += 40000; return t[0]
+        E = nu.EV
+        allbits = [E["TTX_PAGE"], E["CAPTION"], E["NETWORK"], E["ASPECT"], E["PROG_INFO"], E["NETWORK_ID"], E["LOCAL_TIME"], E["PROG_ID"]]
+        subj = rng.choice(["aspect", "aspect", "network", "both"])
+        def subset(p):
+            m = 0
+            for b in allbits:
+                if rng.random() < p: m |= b
+            return m
+        m = subset(0.3)
+        if subj in ("aspect", "both"):
+            m &= ~(E["ASPECT"] | E["PROG_INFO"])
+            m |= rng.choice([E["ASPECT"], E["ASPECT"], E["PROG_INFO"], E["ASPECT"] | E["PROG_INFO"]])
+        if subj in ("network", "both"):
+            m &= ~(E["NETWORK"] | E["NETWORK_ID"])
+            m |= rng.choice([E["NETWORK"], E["NETWORK_ID"], E["NETWORK"] | E["NETWORK_ID"]])
+        c = rng.choice(["vps", "8301", "8302"])
+        while True:
+            A = self.pick_station(rng, [c], agree=True)[c]
+            if self.tbl.lookup(c, A)[0] != 0: break
+        w = nu.wss_word(rng.randrange(8), rng.randrange(2), rng.randrange(4))
+        plan = ["mask %d" % m, "note handlers subject=%s carrier=%s" % (subj, c)]
+        def frames(n):
+            for _ in range(n):
+                toks = []
+                if subj != "aspect" or rng.random() < 0.5: toks.append(self.line_for(rng, c, A))
+                if subj != "network" or rng.random() < 0.5: toks.append("w:" + hx(w))
+                if len(toks) == 2 and rng.random() < 0.5:
+                    for tk in toks: plan.append(("frame", T(), [tk]))
+                else:
+                    plan.append(("frame", T(), toks))
+        frames(rng.randrange(5, 9))
+        for _ in range(rng.randrange(1, 5)):
+            k = rng.random()
+            if k < 0.30:      # the other bit of a class whose first bit is enabled
+                cand = []
+                for a, b in ((E["ASPECT"], E["PROG_INFO"]), (E["NETWORK"], E["NETWORK_ID"])):
+                    if m & a and not m & b: cand.append(b)
+                    if m & b and not m & a: cand.append(a)
+                m2 = m | rng.choice(cand) if cand else m | rng.choice(allbits)
+            elif k < 0.55:    # bits of other classes
+                m2 = m | rng.choice(allbits) | (rng.choice(allbits) if rng.random() < 0.5 else 0)
+            elif k < 0.75:    # remove something
+                on = [b for b in allbits if m & b]
+                m2 = m & ~rng.choice(on) if on else m
+            elif k < 0.85:    # all at once
+                m2 = nu.MASK_ALL
+            elif k < 0.93:    # remove the handler, a few frames later register it again
+                plan.append("mask 0")
+                frames(rng.randrange(1, 4))
+                m2 = m if rng.random() < 0.5 else subset(0.5)
+            else:
+                m2 = subset(0.5)
+            m = m2
+            plan.append("mask %d" % m)
+            if rng.random() < 0.3: plan.append("state")
+            frames(rng.randrange(2, 7))
+        plan.append("state")
         return plan
 
     def plan_timeout(self, rng):
@@ -750,7 +830,7 @@ class C13(verif.Spec):
                 return "station:" + (l.split()[3] if len(l.split()) > 3 else "?").split("=")[0] + ("-multi" if "multi" in l else "")
         if case and case[0].startswith(("tbl", "lookup", "layout", "strfu")):
             return case[0].split()[0]
-        if len(case) > 1 and case[1].startswith("note ") and case[1].split()[1] in ("xds-names", "pid", "onefield"):
+        if len(case) > 1 and case[1].startswith("note ") and case[1].split()[1] in ("xds-names", "pid", "onefield", "handlers"):
             return case[1].split()[1]
         if not self.regular(case):
             return "malformed"
@@ -763,7 +843,7 @@ class C13(verif.Spec):
         last = None
         for i, l in enumerate(case):
             w = l.split()
-            if w[0] == "mask" and i > 0:
+            if w[0] == "mask" and i > 0 and not (len(case) > 1 and case[1].startswith("note handlers")):
                 return False
             ft = frame_tokens(l)
             if ft is not None:
@@ -795,7 +875,9 @@ class C13(verif.Spec):
         prev = {}              # carrier -> last received value (since the decoder last forgot everything)
         hist_wss = []          # WSS words since the last reset
         dirty = False          # some reception deviated from its predecessor since the last NETWORK_ID
-        last_aspect = None     # aspect last announced since the last reset
+        dirty_c = {}           # carrier -> its own value deviated since that carrier's value was last announced
+        last_aspect = None     # aspect last announced (delivered as ASPECT) since the last reset
+        known_aspect = None    # aspect the decoder must know by now (four identical valid words), delivered or not
         nuid = 0               # station currently identified, as announced
         win = None             # open quiet / change window
         established = False
@@ -811,8 +893,10 @@ class C13(verif.Spec):
         expect_cached = False
         gap_seen = False       # a time-stamp gap armed the countdown: a time-out reset may follow
         last_t = None
+        nops = 0
         for op, o in zip(case, out):
             w = op.split()
+            nops += 1
             if w[0] == "note":
                 if w[1] == "station":
                     established = False
@@ -848,6 +932,27 @@ class C13(verif.Spec):
             if w[0] == "chsw":
                 pending_reset = True
                 continue
+            if w[0] == "mask" and nops > 1:
+                # the handler is registered again with another mask (vbi_event_handler_register -> vbi_event_enable).
+                # Documented in the source ("newly enabled, start from defaults"): a class that was completely off
+                # starts from scratch; enabling a bit of ANOTHER class, or the second bit next to an enabled ASPECT /
+                # PROG_INFO, must not make the decoder tell what it has told already.  NETWORK and NETWORK_ID are
+                # coupled (every NETWORK event is accompanied by NETWORK_ID): enabling either restarts identification.
+                try:
+                    new = int(w[1], 0)
+                except (ValueError, IndexError):
+                    return None
+                act = new & ~mask
+                if act & (nu.EV["NETWORK"] | nu.EV["NETWORK_ID"]):
+                    prev, dirty, nuid, dirty_c, established = {}, False, 0, {}, False
+                    xcall, xrun, xpending = b"", 0, False
+                if act & (nu.EV["ASPECT"] | nu.EV["PROG_INFO"]) and not mask & (nu.EV["ASPECT"] | nu.EV["PROG_INFO"]):
+                    last_aspect = known_aspect = None
+                if act & nu.EV["PROG_ID"]:
+                    other_cycle, prev_vps_pid = True, None
+                mask = new
+                has_net, has_nid = bool(mask & nu.EV["NETWORK"]), bool(mask & nu.EV["NETWORK_ID"])
+                continue
             ft = frame_tokens(op)
             if ft is None:
                 continue
@@ -882,6 +987,7 @@ class C13(verif.Spec):
                     return self.quiet_what(win, "NETWORK event (time-out reset)")
             if head_reset:
                 prev, hist_wss, dirty, last_aspect, nuid, pending_reset = {}, [], False, None, 0, False
+                dirty_c, known_aspect = {}, None
                 gap_seen = False
                 xcall, xrun, xpending = b"", 0, False
             # --- receptions of this frame ------------------------------------------------------------
@@ -902,6 +1008,7 @@ class C13(verif.Spec):
                     rep = (p == r.value) or (p is None and r.value == 0)
                     if not rep:
                         frame_dirty = True
+                        dirty_c[r.kind] = True
                         if first_rep is not None: dev_after = True
                     elif first_rep is None: first_rep = pos
                     cands.append((r, rep)); prev[r.kind] = r.value; last_id_pos = pos
@@ -930,11 +1037,13 @@ class C13(verif.Spec):
             f17 = "change-unknown-many: NETWORK raised twice and NETWORK_ID carries zeros when an identified station is replaced by an unknown CNI"
             if toks and len([n for n in nets if all(x in ("0", "-") for x in n[:6])]) >= 2:
                 return f17
-            if toks and not has_net and nuid != 0 and any(all(x in ("0", "-") for x in f[:6]) for f in nids):
-                return f17
+            if toks and not has_net and nuid != 0 and any(all(x in ("0", "-") for x in f[:6]) for f in nids) \
+                    and not any(rep and r.kind in CARRIER_FIELD and r.value == 0 for r, rep in cands):
+                return f17      # (a CNI of 0 received twice is announced as what it is: zeros)
             # --- NETWORK_ID: O1, O2, O3 ------------------------------------------------------------------
             for f in nids:
                 ok, why = False, None
+                matched = []
                 for r, rep in cands:
                     if not rep:
                         continue
@@ -953,14 +1062,19 @@ class C13(verif.Spec):
                             why = "faithful: NETWORK_ID nuid %s, table says %d for %s %04x" % (f[0], want, r.kind, r.value)
                         else:
                             ok = True
+                            matched.append(r.kind)
                 if not ok:
                     if why:
                         return why
                     if not any(rep for _, rep in cands):
                         return "needs-repeat: NETWORK_ID without an equal previous reception on any carrier of the frame"
                     return "faithful: NETWORK_ID fields %s match no repeated line of the frame" % ":".join(f)
-                if not frame_dirty and has_nid:
+                # O3: announced again only after a deviation - on any carrier since the last announcement (what the
+                # shared debounce cycle does) or on the announcing carrier since IT was announced last (one cycle per carrier)
+                if not frame_dirty and has_nid and not any(dirty_c.get(k) for k in matched):
                     return "stable: NETWORK_ID although no reception deviated since the last announcement"
+                for k in matched:
+                    dirty_c[k] = False
             dirty = (dev_after if nids else frame_dirty) if has_nid else False
             if nids or (toks and nets):
                 established = True
@@ -994,7 +1108,7 @@ class C13(verif.Spec):
                 if all(x in ("0", "-") for x in announced[-1][:6]) and line_reset:
                     prev = {}                  # everything forgotten (reset with id 0)
             if line_reset:
-                last_aspect = None
+                last_aspect = known_aspect = None
                 hist_wss = []
             if wss_rx is not None:
                 if not line_reset or (last_id_pos is not None and wss_pos > 0):
@@ -1050,8 +1164,12 @@ class C13(verif.Spec):
             if wss_rx is not None and not asps and mask & nu.EV["ASPECT"] and len(toks) == 1:
                 b0, b1 = wss_rx.value
                 if len(hist_wss) >= 4 and all(x == (b0, b1) for x in hist_wss[-4:]) and wss_parity_ok(b0) \
-                        and last_aspect != wss_spec(b0, b1):
+                        and last_aspect != wss_spec(b0, b1) and known_aspect != wss_spec(b0, b1):
                     return "liveness: four identical valid WSS words, new aspect, no ASPECT event"
+            if wss_rx is not None:
+                b0, b1 = wss_rx.value
+                if len(hist_wss) >= 4 and all(x == (b0, b1) for x in hist_wss[-4:]) and wss_parity_ok(b0):
+                    known_aspect = wss_spec(b0, b1)
         return None
 
     def quiet_what(self, win, what):
